@@ -642,7 +642,7 @@ class PkgGen:
         # un-annotated function whose only `return`s are the implicit ones of lambdas.  No random draws.
         m0 = modules[0]
         if not (set(m0["pkg"] + [m0["name"]]) & {"test", "tests", "docs"}) and "zz_gather" not in self.global_used:
-            self.global_used.update({"zz_gather", "zz_hook"})
+            self.global_used.update({"zz_gather", "zz_hook", "zz_clip"})
             par = lambda n, k, a, d=None: {"name": n, "kind": k, "ann": a, "default": d, "doc": "", "doc_type": None}
             base = {"kind": "function", "method_kind": None, "returns": None, "doc": "", "result_doc": "", "is_property": False,
                     "result_doc_type": None, "rest_type_first": True}
@@ -650,6 +650,11 @@ class PkgGen:
                                     "params": [par("first", "POSITION_OR_NAME", ("int",)), par("__items", "POSITIONAL_VARARG", ("int",)),
                                                par("__strict", "NAME_ONLY", ("bool",), ("False", False)),
                                                par("__extra", "NAMED_VARARG", ("str",))]})
+            # float defaults that overflow to infinity (`1e999`): kept by the analyser, written as `Infinity` into the API file
+            m0["functions"].append({**base, "name": "zz_clip", "ret": ("float",),
+                                    "params": [par("value", "POSITION_OR_NAME", ("float",)),
+                                               par("lower", "POSITION_OR_NAME", ("float",), ("-1e999", float("-inf"))),
+                                               par("upper", "POSITION_OR_NAME", ("float",), ("1e999", float("inf")))]})
             m0["functions"].append({**base, "name": "zz_hook", "ret": None, "params": [],
                                     "extra_body": ["zz_cb = lambda: 0", "zz_cb2 = lambda: ('a', True)", "zz_cb3 = lambda: None"]})
         # members of another module reached through the module object (`import a.b as m; m.f`, `m.C`): expression types
@@ -731,6 +736,23 @@ class PkgGen:
                         "overload_fn": False}
             modules.append(zz_module([self.root]))
             modules.append(zz_module(sub[0]))
+            # a PRIVATE module-level class that the package re-exports under a public alias, followed in the same module by a
+            # public class with a NESTED private class of the same name (and a private method named like a re-exported
+            # private function): the re-export verdict of the first must not be reused for the members
+            qb = f"{self.root}.zz_builders"
+            fnb = lambda n, kind: {"kind": "function", "name": n, "method_kind": kind, "params": [], "ret": ("int",), "returns": None,
+                                   "doc": "", "result_doc": "", "is_property": False, "result_doc_type": None, "rest_type_first": True}
+            clsb = lambda n, q, methods, classes: {"kind": "class", "name": n, "qname": q, "bases": [], "init": None, "inst_attrs": [],
+                                                   "attrs": [{"name": "zz_depth", "ann": ("int",), "value": "0", "doc": ""}],
+                                                   "methods": methods, "classes": classes, "doc": "", "extras": {}}
+            frame = clsb("_ZzFrame", f"{qb}._ZzFrame", [], [])
+            widget = clsb("ZzWidget", f"{qb}.ZzWidget", [fnb("_zz_assemble", "instance")],
+                          [clsb("_ZzFrame", f"{qb}.ZzWidget._ZzFrame", [], [])])
+            modules.append({"kind": "module", "name": "zz_builders", "pkg": [self.root], "qname": qb, "classes": [frame, widget],
+                            "functions": [fnb("_zz_assemble", None)], "enums": [], "doc": "", "imports": set(), "aliases": False,
+                            "overload_fn": False})
+            inits[(self.root,)].append({"form": "name", "module": qb, "name": "_ZzFrame", "alias": "ZzFrame", "relative": True})
+            inits[(self.root,)].append({"form": "name", "module": qb, "name": "_zz_assemble", "alias": "zz_assemble", "relative": True})
             inits[(self.root,)].append({"form": "name", "module": f"{self.root}._zz_impl", "name": "ZzEngine", "alias": None, "relative": True})
             inits[(self.root,)].append({"form": "name", "module": f"{self.root}._zz_impl", "name": "_zz_build", "alias": "zz_build", "relative": True})
         return {"root": self.root, "packages": [list(p) for p in inits], "modules": modules,
